@@ -431,6 +431,54 @@ Definition ct_conforms (d : doc) (r : response) : bool :=
 Definition nonempty_ct (r : response) : bool :=
   match get_header s_content_type r with Some [] => false | _ => true end.
 
+(* ---------- integer keys, check by check ----------
+   status_code_conformance and validate_response read every key through str(), get_content_types and
+   get_headers (through _get_response_definitions) compare the RAW keys.  The two checks below are NOT the
+   code: they are content_type_conformance / response_headers_conformance with the lookup validate_response
+   uses, and only serve to say where the raw lookup changes an outcome. *)
+Definition content_type_check_str (d : doc) (r : response) : outcome :=
+  if d_v30 d then
+    match lookup_str d (status r) with
+    | None => Ok []
+    | Some x => match resolve_code d x with
+                | RFail => Crash ERefResolution
+                | RBody b => ct_check_on (map fst (r_content b)) r
+                end
+    end
+  else ct_check_on (produces d) r.
+Definition headers_check_str (hvalid : N -> str -> bool) (d : doc) (r : response) : outcome :=
+  match lookup_str d (status r) with
+  | None => Ok []
+  | Some x => match resolve_code d x with
+              | RFail => Crash ERefResolution
+              | RBody b => hdr_check_on true hvalid (r_headers b) r
+              end
+  end.
+Fixpoint fks_eqb (a b : list fk) : bool :=
+  match a, b with
+  | [], [] => true
+  | x :: a', y :: b' => fk_eqb x y && fks_eqb a' b'
+  | _, _ => false
+  end.
+Definition exn_eqb (a b : exn) : bool :=
+  match a, b with
+  | EValueError, EValueError | EUnicodeDecode, EUnicodeDecode
+  | EMalformedMediaType, EMalformedMediaType | ERefResolution, ERefResolution => true
+  | _, _ => false
+  end.
+Definition outcome_eqb (a b : outcome) : bool :=
+  match a, b with
+  | Ok x, Ok y => fks_eqb x y
+  | Crash x, Crash y => exn_eqb x y
+  | _, _ => false
+  end.
+(* F3, per (document, response): the raw lookup of get_content_types / get_headers changes neither of the two
+   outcomes that depend on it.  Holds for every document without integer keys; with integer keys it holds e.g.
+   when the received media type and headers are fine either way - the body schema check is then fully specified *)
+Definition int_keys_immaterial (hvalid : N -> str -> bool) (d : doc) (r : response) : bool :=
+  outcome_eqb (content_type_check d r) (content_type_check_str d r)
+  && outcome_eqb (headers_check hvalid d r) (headers_check_str hvalid d r).
+
 (* ---------- writeOnly rewrite, and the loaded API schema as state ----------
    Object schemas at the level the rewrite works on: property names with their
    writeOnly / x-writeOnly flag, and the required list. *)
